@@ -51,6 +51,8 @@ def declare_nested(S, spec):
         for f, k in c.fields:
             if k == ('seq', spec.name):
                 srt = z3.SeqSort(z3.DatatypeSort(spec.name))
+            elif k == spec.name:
+                srt = dt
             else:
                 srt = S.sort_of(k)
             fs.append(('%s_%s_%s' % (spec.name, c.name, f), srt))
